@@ -24,7 +24,8 @@ ASSUMPTIONS = ["the theorem `optimize_flag_sound` quantifies over the goal state
 def cases(rng, tier):
     N = 120 if tier == "quick" else 1500
     for _ in range(N):
-        p = cutfind.gen_case(rng, tier, restricted=rng.random() < 0.6)
+        r0 = rng.random()
+        p = cutfind.gen_dense(rng, tier, exact=rng.random() < 0.5) if r0 < 0.3 else cutfind.gen_case(rng, tier, restricted=rng.random() < 0.6)
         p["width"] = max(1, p["width"])
         p["max_gamma"] = max(1.0, p["max_gamma"])
         if p["max_backjumps"] is not None and p["max_backjumps"] < 0:
